@@ -131,7 +131,10 @@ type c08Down struct {
 	parts map[incKey]int
 }
 
-func (d *c08Down) has(db string) bool { _, ok := d.dbs[canonDB(db)]; return ok || canonDB(db) == "default" }
+func (d *c08Down) has(db string) bool {
+	_, ok := d.dbs[canonDB(db)]
+	return ok || canonDB(db) == "default"
+}
 
 func propC08(t *rapid.T) {
 	sc := stats.New("C08")
